@@ -128,6 +128,26 @@ def main():
             r = lo + (hi - lo) * rng.uniform(-0.2, 1.2)
             tol = rng.choice([None, 1e-3, 1e-6, 1e-12])
             check_case(U, kind, r, s, lo, hi, tol, np.float64, failures, counts)
+        # the caller's bracket: array-valued brackets (callable and list front ends) are the caller's after the call as they were before it, so
+        # the same arrays serve the next call -- a second function solved over the *same* bracket arrays gets the bracket that was asked for
+        for dtype in dtypes:
+            for front in ("callable", "list"):
+                lo_a, hi_a = np.array([0.0, 0.0, 3.0], dtype=dtype), np.array([1.0, 2.0, -1.0], dtype=dtype)
+                lo0, hi0 = lo_a.copy(), hi_a.copy()
+                r1, r2 = np.array([0.5, 1.0, 0.25], dtype=dtype), np.array([0.125, 1.75, 2.5], dtype=dtype)
+                counts["cases"] += 1
+                try:
+                    for rr in (r1, r2):
+                        f_ = (lambda x, rr=rr: x - rr) if front == "callable" else [(lambda x, c=c: x - c) for c in rr]
+                        xr, okr = U.brentsrootvec(f_, [lo_a, hi_a], np.asarray(1e-6, dtype=dtype))
+                        if not (np.all(okr) and np.all(np.abs(np.asarray(xr, dtype=np.float64) - rr.astype(np.float64)) <= 1e-5)):
+                            if len(failures.setdefault("same-bracket-arrays-reused-for-the-next-call", [])) < 4:
+                                failures["same-bracket-arrays-reused-for-the-next-call"].append(dict(front=front, dtype=str(dtype), roots=[float(v) for v in rr], got=[float(v) for v in xr], success=[bool(v) for v in okr]))
+                except Exception as e:
+                    failures.setdefault("raises", []).append(dict(front=front, dtype=str(dtype), exc=repr(e), case="bracket reuse"))
+                if not (np.array_equal(lo_a, lo0) and np.array_equal(hi_a, hi0)):
+                    if len(failures.setdefault("caller-bracket-arrays-modified", [])) < 4:
+                        failures["caller-bracket-arrays-modified"].append(dict(front=front, dtype=str(dtype), lower_after=[float(v) for v in lo_a], upper_after=[float(v) for v in hi_a]))
         out = dict(cases=counts["cases"], distinct=len(counts["distinct"]), failures=failures,
                    fail_counts={k[5:]: v for k, v in counts.items() if k.startswith("fail_")})
         print(json.dumps(out))
